@@ -106,6 +106,32 @@ func CheckTokenGame(pfx string, prog *Program, hist []simlog.Ev) *TokenGameResul
 			if e := m.Answer(ev.A, r, objs); e != "" {
 				vl.add(pfx+"/harness", "step %d: %s", ev.Step, e)
 			}
+		case "ans-mix":
+			// several Do calls of different kinds (results / error without handler) answer one request: exactly one
+			// of them takes effect. An ErrorTrace naming the activity tells that it was an error call; then
+			// nothing may be stored. Otherwise the results of one success call are stored and no error appears.
+			isErr := false
+			for _, later := range hist[hi+1:] {
+				if later.Kind == "quiescent" || later.Kind == "cancel" {
+					break
+				}
+				if later.Kind == "t:error" && strings.Contains(later.A, "TaskExecError") && strings.Contains(later.B, "'"+ev.A+"'") {
+					isErr = true
+					break
+				}
+			}
+			if isErr {
+				taskErrWant[ev.A]++
+				if e := m.Answer(ev.A, nil, nil); e != "" {
+					vl.add(pfx+"/harness", "step %d: %s", ev.Step, e)
+				}
+			} else {
+				r, _ := ev.V.(map[string]any)
+				objs, _ := r["__objects"].(map[string]any)
+				if e := m.Answer(ev.A, r, objs); e != "" {
+					vl.add(pfx+"/harness", "step %d: %s", ev.Step, e)
+				}
+			}
 		case "t:leave":
 			if n := findNodeIn(prog.Defs, ev.A); n != nil && n.Kind == "catch" && n.Relaxed {
 				if !m.ReleaseCatch(ev.A) {
